@@ -423,10 +423,10 @@ Proof.
   set (m1 := upd_core m sp lg' (loss_timer m) (ptos m)).
   assert (W1 : forall acked_bytes0 acked_bytes1,
      acked_bytes0 = sum_bytes_on acked 0 -> acked_bytes1 = sum_bytes_on acked 1 ->
-     forall m', sentp m' = sp -> largest m' = lg' -> lastpn m' = lastpn m ->
+     forall m', single m' = single m -> sentp m' = sp -> largest m' = lg' -> lastpn m' = lastpn m ->
        ccs (pa m') = cc_add (ccs (pa m)) 0 acked_bytes0 0 0 ->
        ccs (pb m') = cc_add (ccs (pb m)) 0 acked_bytes1 0 0 -> winv m').
-  { intros a0 a1 -> -> m' E1 E2 E3 E4 E5. apply (winv_sub m m' f W); try congruence.
+  { intros a0 a1 -> -> m' E0 E1 E2 E3 E4 E5. apply (winv_sub m m' f W); try congruence.
     - rewrite E2, E1. assumption.
     - rewrite E4, bif_add, w_bif2, E1, (Hsum 0). unfold Nz. lia.
     - rewrite E5, bif_add, w_bif3, E1, (Hsum 1). unfold Nz. lia. }
@@ -436,10 +436,12 @@ Proof.
         [destruct (ccs (pa m)) as [a1 a2 a3 a4] | destruct (ccs (pb m)) as [a1 a2 a3 a4]]; cbn [c_sent c_acked c_lost c_disc]; rewrite ?N.add_0_r; reflexivity. }
   (* the intermediate state with all acknowledged bytes accounted, before loss detection *)
   match goal with |- context[detect_and_remove ?M now rx] => set (m2 := M) end.
-  assert (W2 : forall m', sentp m' = sentp m2 -> largest m' = largest m2 -> lastpn m' = lastpn m2 ->
+  assert (W2 : forall m', single m' = single m2 -> sentp m' = sentp m2 -> largest m' = largest m2 -> lastpn m' = lastpn m2 ->
        ccs (pa m') = cc_add (ccs (pa m2)) 0 (sum_bytes_on acked 0) 0 0 ->
        ccs (pb m') = cc_add (ccs (pb m2)) 0 (sum_bytes_on acked 1) 0 0 -> winv m').
-  { intros m' E1 E2 E3 E4 E5.
+  { intros m' E0 E1 E2 E3 E4 E5.
+    assert (S20 : single m2 = single m).
+    { subst m2. destruct ((rx =? p_path ln) && (p_pn ln =? lgf) && existsb p_ae acked); reflexivity. }
     assert (S2 : sentp m2 = sp /\ largest m2 = lg' /\ lastpn m2 = lastpn m /\ ccs (pa m2) = ccs (pa m) /\ ccs (pb m2) = ccs (pb m)).
     { subst m2. destruct ((rx =? p_path ln) && (p_pn ln =? lgf) && existsb p_ae acked).
       - unfold set_path, get_path. cbn [sentp largest lastpn pa pb m1 upd_core]. repeat split.
@@ -480,7 +482,10 @@ Proof.
   pose proof W2' as [].
   assert (Ef : sentp m7 = filter (fun q => negb (in_list (p_pn q) ls)) (sentp m2')).
   { rewrite E71. change (sentp m2') with (sentp m2). rewrite Hs3 at 1. rewrite filter_prefix; [reflexivity|]. rewrite <- Hs3. assumption. }
-  apply (winv_sub m2' m7 _ W2' Ef).
+  assert (Esg : single m7 = single m2').
+  { change (single m7) with (single m3). change (single m2') with (single m2).
+    rewrite <- (single_detect m2 now rx), E3. reflexivity. }
+  apply (winv_sub m2' m7 _ W2' Esg Ef).
   - rewrite E73, Hp3. reflexivity.
   - intros lg Hlg. rewrite E72, Hl3 in Hlg. destruct (w_lg1 lg Hlg) as [H1 H2]. split; [assumption|].
     intros p Hp. apply H2. change (sentp m2') with (sentp m2). rewrite Hs3. apply in_app_iff. right. rewrite <- E71. assumption.
@@ -542,6 +547,32 @@ Proof.
     destruct ready; reflexivity.
 Qed.
 
+Lemma total_path0 : forall l, (forall p, In p l -> p_path p = 0) ->
+  fold_right (fun p acc => p_bytes p + acc) 0 l = sum_bytes_on l 0 /\ sum_bytes_on l 1 = 0.
+Proof.
+  induction l as [|x l IH]; intros H; [split; reflexivity|].
+  destruct IH as [I1 I2]; [intros p Hp; apply H; right; assumption|].
+  unfold sum_bytes_on in *. cbn [fold_right]. rewrite (H x) by (left; reflexivity).
+  change (0 =? 0) with true. change (0 =? 1) with false. cbn match. rewrite I1, I2. split; reflexivity.
+Qed.
+
+(* Retry: everything unresolved leaves flight at once, the manager starts afresh *)
+Lemma winv_retry : forall m, winv m -> m_client m = true -> winv (retry m).
+Proof.
+  intros m [] Hc.
+  assert (Hs : single m = true) by (unfold single; rewrite Hc; reflexivity).
+  destruct (total_path0 (sentp m) (w_single0 Hs)) as [T0 T1].
+  constructor; unfold retry; cbn [sentp largest lastpn pa pb].
+  - constructor.
+  - intros p [].
+  - intros lg0 H. discriminate.
+  - constructor.
+  - constructor.
+  - rewrite ccs_pa_cc_path. change (0 =? 0) with true. cbn match. rewrite bif_add, w_bif2, T0. cbn. unfold Nz. lia.
+  - rewrite ccs_pb_cc_path. change (0 =? 0) with true. cbn match. rewrite w_bif3, T1. reflexivity.
+  - intros _ p [].
+Qed.
+
 (* ---- reachable states: any sequence of driver operations ---- *)
 Definition mstep_state (m : mgr) (c a b d e f g : Z) : mgr :=
   let '(m', _, _, _, _) := mstep m c a b d e f g in m'.
@@ -557,10 +588,11 @@ Proof.
   intros m c a b d e f g W Hn H6. unfold mstep_state, mstep. rewrite H6.
   destruct (c =? 1)%Z.
   { split.
-    - apply winv_sent; [apply winv_set_now; assumption| | |].
+    - apply winv_sent; [apply winv_set_now; assumption| | | |].
       + intros l Hl. cbn [set_now lastpn] in Hl. rewrite Hl. lia.
       + unfold now_pos in Hn. lia.
-      + destruct (f =? 0)%Z; auto.
+      + destruct (single m || (f =? 0)%Z); auto.
+      + change (single (set_now m (m_now m + zN e))) with (single m). intros ->. reflexivity.
     - unfold now_pos in *. cbn. lia. }
   destruct (c =? 2)%Z.
   { split; [apply winv_burst, winv_set_now; assumption|]. unfold now_pos in *. unfold burst_complete.
@@ -578,17 +610,17 @@ Proof.
     destruct (N.leb_spec (zN b) l).
     2:{ split; [assumption|]. unfold now_pos in *. rewrite N0. subst now. lia. }
     pose proof (winv_ack m0 now (mk_ranges (zN b) (zN d) (zN e) (zN f)) (zN b) (zN g * 1000)
-                  (if (c =? 4)%Z then 1 else 0) (zN b - zN d) W0) as WA.
-    destruct (on_ack_frame m0 now (mk_ranges (zN b) (zN d) (zN e) (zN f)) (zN b) (zN g * 1000) (if (c =? 4)%Z then 1 else 0))
+                  (if (c =? 4)%Z && negb (single m) then 1 else 0) (zN b - zN d) W0) as WA.
+    destruct (on_ack_frame m0 now (mk_ranges (zN b) (zN d) (zN e) (zN f)) (zN b) (zN g * 1000) (if (c =? 4)%Z && negb (single m) then 1 else 0))
       as [[m1 lost] hulls] eqn:EA.
     cbn [fst] in WA. split.
     - apply WA.
-      + destruct (c =? 4)%Z; auto.
+      + destruct ((c =? 4)%Z && negb (single m)); auto.
       + exists l. rewrite L0. auto.
       + apply mk_ranges_first.
       + lia.
     - unfold now_pos in *.
-      pose proof (now_ack m0 now (mk_ranges (zN b) (zN d) (zN e) (zN f)) (zN b) (zN g * 1000) (if (c =? 4)%Z then 1 else 0)) as Hnow.
+      pose proof (now_ack m0 now (mk_ranges (zN b) (zN d) (zN e) (zN f)) (zN b) (zN g * 1000) (if (c =? 4)%Z && negb (single m) then 1 else 0)) as Hnow.
       rewrite EA in Hnow. cbn [fst] in Hnow.
       rewrite Hnow, N0. subst now. lia. }
   destruct (c =? 5)%Z.
@@ -605,6 +637,15 @@ Proof.
     unfold now_pos in *.
     pose proof (now_timeout m1 now maxb) as Hnow. rewrite ET in Hnow. cbn [fst] in Hnow.
     rewrite Hnow, N1. subst now. lia. }
+  destruct (c =? 7)%Z.
+  { destruct (m_client m) eqn:Ec; [|split; assumption].
+    split.
+    - apply winv_retry.
+      + destruct (mp m); [apply winv_burst|]; assumption.
+      + destruct (mp m); [unfold burst_complete; destruct (pend m)|]; assumption.
+    - unfold now_pos in *. destruct (mp m); [unfold burst_complete; destruct (pend m)|]; cbn; assumption. }
+  destruct (c =? 8)%Z.
+  { split; [|assumption]. eapply winv_same; [exact W|..]; reflexivity. }
   split; assumption.
 Qed.
 
@@ -694,9 +735,9 @@ Proof.
     assert (S0 : sentp m0 = sentp m).
     { subst m0. destruct (mp (set_now m now)); [rewrite sentp_burst|]; reflexivity. }
     destruct (match lastpn m with Some l => zN b <=? l | None => false end).
-    - pose proof (incl_ack m0 now (mk_ranges (zN b) (zN d) (zN e) (zN f)) (zN b) (zN g * 1000) (if (c =? 4)%Z then 1 else 0) W0) as Hi.
-      destruct (on_ack_frame m0 now (mk_ranges (zN b) (zN d) (zN e) (zN f)) (zN b) (zN g * 1000) (if (c =? 4)%Z then 1 else 0)) as [[m1 lost] hulls].
-      cbn [fst] in Hi. left. rewrite <- S0. apply Hi; [destruct (c =? 4)%Z; auto|assumption].
+    - pose proof (incl_ack m0 now (mk_ranges (zN b) (zN d) (zN e) (zN f)) (zN b) (zN g * 1000) (if (c =? 4)%Z && negb (single m) then 1 else 0) W0) as Hi.
+      destruct (on_ack_frame m0 now (mk_ranges (zN b) (zN d) (zN e) (zN f)) (zN b) (zN g * 1000) (if (c =? 4)%Z && negb (single m) then 1 else 0)) as [[m1 lost] hulls].
+      cbn [fst] in Hi. left. rewrite <- S0. apply Hi; [destruct ((c =? 4)%Z && negb (single m)); auto|assumption].
     - left. rewrite <- S0. assumption. }
   destruct (c =? 5)%Z.
   { set (now := m_now m + zN a) in *.
@@ -809,8 +850,8 @@ Proof.
     assert (L0 : lastpn m0 = Some l).
     { subst m0. destruct (mp (set_now m now)); [rewrite lastpn_burst|]; assumption. }
     rewrite Hl. destruct (zN b <=? l).
-    - pose proof (lastpn_ack m0 now (mk_ranges (zN b) (zN d) (zN e) (zN f)) (zN b) (zN g * 1000) (if (c =? 4)%Z then 1 else 0)) as Ha.
-      destruct (on_ack_frame m0 now (mk_ranges (zN b) (zN d) (zN e) (zN f)) (zN b) (zN g * 1000) (if (c =? 4)%Z then 1 else 0)) as [[m1 lost] hulls].
+    - pose proof (lastpn_ack m0 now (mk_ranges (zN b) (zN d) (zN e) (zN f)) (zN b) (zN g * 1000) (if (c =? 4)%Z && negb (single m) then 1 else 0)) as Ha.
+      destruct (on_ack_frame m0 now (mk_ranges (zN b) (zN d) (zN e) (zN f)) (zN b) (zN g * 1000) (if (c =? 4)%Z && negb (single m) then 1 else 0)) as [[m1 lost] hulls].
       cbn [fst] in Ha. exists l. split; [congruence|lia].
     - exists l. split; [exact L0|lia]. }
   destruct (c =? 5)%Z.
